@@ -43,6 +43,31 @@ def size_constants():
                   if k.lstrip("_").isupper() and isinstance(v, int) and not isinstance(v, bool) and v >= 1024)
 
 
+def interpreted_headers():
+    """lower-cased names of every header the parse path / redirect / WSGI environ code looks at by name: constant-string
+    arguments of `<x>headers.get(...)`, `<x>headers[...]`, `'..' in <x>headers`, read from the source now"""
+    names = set()
+    for mod in ("httping", "serving", "clienting"):
+        tree = ast.parse(open(_src(mod)).read())
+        for n in ast.walk(tree):
+            tgt = None
+            key = None
+            if isinstance(n, ast.Call) and isinstance(n.func, ast.Attribute) and n.func.attr in ("get", "nab", "getall", "pop") and n.args:
+                tgt, key = n.func.value, n.args[0]
+            elif isinstance(n, ast.Subscript):
+                tgt, key = n.value, n.slice
+            elif isinstance(n, ast.Compare) and len(n.ops) == 1 and isinstance(n.ops[0], (ast.In, ast.NotIn)):
+                tgt, key = n.comparators[0], n.left
+            if tgt is None or not isinstance(key, ast.Constant) or not isinstance(key.value, str):
+                continue
+            tn = _name(tgt) or ""
+            if isinstance(tgt, ast.Subscript) and isinstance(tgt.slice, ast.Constant) and isinstance(tgt.slice.value, str):
+                tn = tgt.slice.value           # redirect['headers'].get('location')
+            if "header" in tn.lower():
+                names.add(key.value.lower())
+    return sorted(names)
+
+
 def _src(mod):
     return os.path.join(core.REPO, "src", "hio", "core", "http", mod + ".py")
 
@@ -99,7 +124,7 @@ def _sites(fn):
             return [("urlsplit", "ValueError")]
         # name resolution IDNA-encodes a str host: UnicodeError for an empty / over long label
         if isinstance(node, ast.Call) and _name(node.func) in ("normalizeHost", "getaddrinfo"):
-            return [("resolve-idna", "UnicodeError")]
+            return [("resolve-idna", "UnicodeError"), ("resolve", "OSError")]     # socket.gaierror is an OSError
         # str.encode with a strict codec
         if isinstance(node, ast.Call) and isinstance(node.func, ast.Attribute) and node.func.attr == "encode":
             kw = {k.arg: k.value for k in node.keywords}
@@ -151,6 +176,41 @@ def _sites(fn):
     guarded = _guarded_ints(fn)
     out = [(ln, ("int-guarded" if kind == "int" and ln in guarded else kind), c, hs) for ln, kind, c, hs in out]
     return out
+
+
+def _helper_calls(fn, helpers):
+    """[(helper name, handler classes enclosing the call)] for calls of module level httping functions inside fn"""
+    out = []
+
+    def walk(node, handlers):
+        if isinstance(node, ast.Try):
+            hs = [c for h in node.handlers for c in _handler_names(h)]
+            for b in node.body:
+                walk(b, handlers + hs)
+            for h in node.handlers:
+                for b in h.body:
+                    walk(b, handlers)
+            for b in node.orelse + node.finalbody:
+                walk(b, handlers)
+            return
+        if isinstance(node, ast.Call):
+            nm = _name(node.func)
+            if nm in helpers and (isinstance(node.func, ast.Name) or (isinstance(node.func, ast.Attribute) and _name(node.func.value) == "httping")):
+                out.append((nm, list(handlers)))
+        for ch in ast.iter_child_nodes(node):
+            if isinstance(ch, (ast.FunctionDef, ast.ClassDef, ast.Lambda)):
+                continue
+            walk(ch, handlers)
+
+    for st in fn.body:
+        walk(st, [])
+    seen = set()
+    res = []
+    for nm, hs in out:
+        if (nm, tuple(hs)) not in seen:
+            seen.add((nm, tuple(hs)))
+            res.append((nm, hs))
+    return res
 
 
 def _guarded_ints(fn):
@@ -283,6 +343,8 @@ def extract():
 
     # --- raise sites + handlers
     sites = []
+    scanned = {fn for mod, cls, fn in PARSE_PATH if mod == "httping" and cls is None}
+    helpers = {n.name: n for n in trees["httping"].body if isinstance(n, ast.FunctionDef)}
     for mod, cls, fn in PARSE_PATH:
         f = _find(trees[mod], cls, fn)
         if f is None:
@@ -291,6 +353,14 @@ def extract():
             if c == "reraise":
                 continue
             sites.append((f"{cls or mod}.{fn}", kind, c, hs))
+        # one level into module level helpers of httping that the function calls and that are not scanned on their own:
+        # their sites, under the handlers that enclose the call
+        for callee, hcall in _helper_calls(f, helpers):
+            if callee in scanned:
+                continue
+            for ln, kind, c, hs in _sites(helpers[callee]):
+                if c != "reraise":
+                    sites.append((f"{cls or mod}.{fn}>httping.{callee}", kind, c, hs + hcall))
     # the message parser wraps parseHead/parseBody: handler classes around next(headParser)/next(bodyParser)
     pm = _find(trees["httping"], "Parsent", "parseMessage")
     wrap = sorted({c for n in ast.walk(pm) if isinstance(n, ast.Try) for h in n.handlers for c in _handler_names(h)})
@@ -387,6 +457,8 @@ def extract():
     L.append("def bytesSpace : List Nat := [" + ", ".join(map(str, bytesws)) + "]")
     L.append("/-- bytes accepted as a chunk-size digit by parseChunk (probe of its strip set) -/")
     L.append("def hexDigits : List Nat := [" + ", ".join(map(str, hexd)) + "]")
+    L.append("/-- lower-cased names of the headers the code interprets by name (parse path, redirect, WSGI environ) -/")
+    L.append("def interpretedHeaders : List String := [" + ", ".join(_lean_str(h) for h in interpreted_headers()) + "]")
     L.append("/-- (call site, kind, eols) of every parseLine / parseLeader call on the parse path -/")
     L.append("def eolSites : List (String × String × List String) := [\n  " + ",\n  ".join(
         f"({_lean_str(a)}, {_lean_str(k)}, [" + ", ".join(_lean_str(e) for e in es) + "])" for a, k, es in eolsites) + "]")
